@@ -1,4 +1,4 @@
-CONSTANTS Keys = {1, 2, 3}  Powers = {0, 1, 2}  MaxTxs = 2  MaxBlocks = 2  PostAspen = FALSE
+CONSTANTS Keys = {1, 2, 3}  Powers = {0, 1, 2}  MaxTxs = 2  MaxBlocks = 2  PostAspen = FALSE  AllowUpgrade = FALSE
 INIT Init
 NEXT Next
 INVARIANTS Mirror BatchApplicable NeverEmpty
